@@ -479,13 +479,21 @@ class Feedback:
 
     @classmethod
     def _restore_overrides(cls):
-        for field, old_value in cls._override_backups.items():
-            setattr(cls, field, old_value)
-        cls._override_backups.clear()
+        if cls._override_backups is not None:
+            for field, old_value in cls._override_backups.items():
+                setattr(cls, field, old_value)
+            cls._override_backups.clear()
+        if '_pools' in cls.__dict__:
+            cls._pools = {}
 
 
     @classmethod
-    def override_for_pool(cls, pool, **fields):
+    def override_for_pool(cls, pool, report=MAIN_REPORT, **fields):
+        # Each class keeps its own pool overrides (instead of sharing the
+        # base class' dictionary), and they are dropped with the report.
+        if '_pools' not in cls.__dict__:
+            cls._pools = {}
+        report.override_feedback(cls)
         if isinstance(pool, str):
             pool = [pool]
         for each_pool in pool:
